@@ -65,6 +65,12 @@ def r1(ctx, fs):
                 if a.get('k') == 'LambdaExpr':
                     region = (a.get('c') or [f.body])[0]
                     break
+                if a.get('k') == 'CXXCatchStmt':
+                    # the paths of a function body do not enter its handlers: a throw inside one is decided on the paths of the handler itself
+                    hb = [c for c in (a.get('c') or ()) if c.get('k') == 'CompoundStmt']
+                    if hb:
+                        region = hb[0]
+                    break
             try:
                 ps = [p for p in enum_paths(region) if p.endnode is n]
             except AnalysisBroken:
